@@ -353,7 +353,10 @@ def canon_for_equivalence(script, lines, mask):
         op = script[i].split(" ") if i < len(script) else [""]
         m = mask[i] if i < len(mask) else None
         if l.startswith("ok n:"):
-            if op[0] == "names" and op[3] != "1":
+            # a window is a complete child list only if it starts at 1 and returned fewer names than it asked for;
+            # any other window depends on the sibling ORDER, which the back ends may choose differently after a rename
+            got = 0 if l[5:] == "-" else len(l[5:].split(","))
+            if op[0] == "names" and (op[3] != "1" or got >= int(op[4])):
                 out.append("ok n:<window>")
             else:
                 out.append("ok n:" + ",".join(sorted(l[5:].split(","))))
